@@ -1,5 +1,32 @@
 package checks
 
-import "verifharness/core"
+import (
+	"fmt"
+	"sort"
+
+	"verifharness/core"
+)
 
 func stackNow() []byte { return core.Stack() }
+
+// slowest records the total child CPU and the ten most expensive cases in the evidence
+func slowest(run *core.Run, n int, f func(i int) (int64, string)) {
+	type it struct {
+		ms int64
+		d  string
+	}
+	var all []it
+	var tot int64
+	for i := 0; i < n; i++ {
+		ms, d := f(i)
+		tot += ms
+		all = append(all, it{ms, d})
+	}
+	sort.Slice(all, func(a, b int) bool { return all[a].ms > all[b].ms })
+	var top []string
+	for i := 0; i < 10 && i < len(all); i++ {
+		top = append(top, fmt.Sprintf("%dms %s", all[i].ms, all[i].d))
+	}
+	run.SetExtra("child_cpu_total_s", tot/1000)
+	run.SetExtra("most_expensive_cases", top)
+}
